@@ -214,7 +214,7 @@ Proof.
   eapply rexpr_to_spec; eauto.
 Qed.
 
-Hypothesis pure : pure_effects p.
+Hypothesis nsf : no_self_feed p.
 
 (* [read_consistent]: after any history, a read of memo n returns the value obtained by replaying
    its body over the log of its last run; every tracked entry of that log (and, recursively, of
@@ -232,7 +232,7 @@ Proof.
   assert (He : effb p n = false) by (unfold effb; rewrite Hd; auto).
   assert (Hn : (n < length p)%nat).
   { destruct (Nat.lt_ge_cases n (length p)); auto. unfold decl_of in Hd. rewrite nth_overflow in Hd by auto. discriminate. }
-  destruct (read_consistent_cone p wfp pure ops n s' v Hw Hn He Hr) as (I' & _ & Hmm & _).
+  destruct (read_consistent_cone p wfp nsf ops n s' v Hw Hn He Hr) as (I' & _ & Hmm & _).
   destruct (Hmm Hm) as (Hc & Hca & Hcons). split; auto. split; auto.
   destruct (inv_rest _ _ _ _ I' n (fun x => x)) as (_ & R2 & _).
   unfold uncached_ok in R2. rewrite Hd in R2. destruct R2 as [_ R2]. auto.
@@ -248,7 +248,7 @@ Proof.
   intros ops n s' v Huf Hw Hn Hm Hr.
   assert (He : effb p n = false).
   { unfold effb, memob in *. destruct (decl_of p n); congruence. }
-  destruct (read_consistent_cone p wfp pure ops n s' v Hw Hn He Hr) as (I' & Hsv & Hmm & _).
+  destruct (read_consistent_cone p wfp nsf ops n s' v Hw Hn He Hr) as (I' & Hsv & Hmm & _).
   destruct (Hmm Hm) as (Hc & Hca & _).
   destruct (clean_memo_eq_spec s' I' Huf n Hm Hc) as (w & Hw' & Hs). split; auto. congruence.
 Qed.
